@@ -88,10 +88,11 @@ def contentTypeTextOk (t : Bytes) : Bool :=
   !t.isEmpty && Utf8.isTrimmed t && Utf8.slashCount t == 1
 
 /-- the COUNTER_SIG arm: single signature vs array of signatures, decided on the first element. -/
-def counterSigArm (sigFrom : Value → Res CoseSignature) (value : Value) : Res (List CoseSignature) :=
+def counterSigArm (depth : Nat) (sigFrom : Value → Res CoseSignature) (value : Value) : Res (List CoseSignature) :=
   match tryAsArray value with
   | .ok sigOrSigs =>
     if sigOrSigs.isEmpty then .err .unexpectedItem
+    else if depth = 0 then .err .decodeFailed          -- nesting budget exhausted (RecursionLimitExceeded)
     else
       match vindex sigOrSigs 0 with
       | .ok (.bytes _) =>
@@ -107,7 +108,7 @@ def counterSigArm (sigFrom : Value → Res CoseSignature) (value : Value) : Res 
   | .panic p => .panic p
 
 /-- one iteration of the `for (l, value) in m` loop, after the duplicate check: dispatch on the label. -/
-def headerDispatch (sigFrom : Value → Res CoseSignature) (label : Label) (value : Value) (h : Header) : Res Header :=
+def headerDispatch (depth : Nat) (sigFrom : Value → Res CoseSignature) (label : Label) (value : Value) (h : Header) : Res Header :=
   if label = hALG then
     match RegLabelPriv.fromValue Reg.algorithm value with
     | .ok a => .ok (h.setAlg (some a))
@@ -147,14 +148,14 @@ def headerDispatch (sigFrom : Value → Res CoseSignature) (label : Label) (valu
     | .err e => .err e
     | .panic p => .panic p
   else if label = hCOUNTER_SIG then
-    match counterSigArm sigFrom value with
+    match counterSigArm depth sigFrom value with
     | .ok ss => .ok (h.setCounterSignatures (h.counterSignatures ++ ss))
     | .err e => .err e
     | .panic p => .panic p
   else .ok (h.setRest (h.rest ++ [(label, value)]))
 
 /-- the `for (l, value) in m.into_iter()` loop of `Header::from_cbor_value`; `seen` holds the labels met so far. -/
-def headerLoop (sigFrom : Value → Res CoseSignature) :
+def headerLoop (depth : Nat) (sigFrom : Value → Res CoseSignature) :
     List (Value × Value) → Header → List Label → Res Header
   | [], h, _ => .ok h
   | (l, value) :: m, h, seen =>
@@ -163,10 +164,10 @@ def headerLoop (sigFrom : Value → Res CoseSignature) :
       match setContains Label.cmp seen label with
       | .ok true => .err .duplicateMapKey
       | .ok false =>
-        match headerDispatch sigFrom label value h with
+        match headerDispatch depth sigFrom label value h with
         | .ok h' =>
           if !h'.iv.isEmpty && !h'.partialIv.isEmpty then .err .unexpectedItem
-          else headerLoop sigFrom m h' (seen ++ [label])
+          else headerLoop depth sigFrom m h' (seen ++ [label])
         | .err e => .err e
         | .panic p => .panic p
       | .err e => .err e
@@ -176,17 +177,17 @@ def headerLoop (sigFrom : Value → Res CoseSignature) :
 
 mutual
 /-- `Header::from_cbor_value` -/
-def Header.fromValue : Nat → Value → Res Header
-  | 0, _ => .err .outOfFuel
-  | fuel+1, v =>
+def Header.fromValue : Nat → Nat → Value → Res Header
+  | 0, _, _ => .err .outOfFuel
+  | fuel+1, depth, v =>
     match tryAsMap v with
-    | .ok m => headerLoop (CoseSignature.fromValue fuel) m Header.default []
+    | .ok m => headerLoop depth (CoseSignature.fromValue fuel (depth - 1)) m Header.default []
     | .err e => .err e
     | .panic p => .panic p
 /-- `CoseSignature::from_cbor_value` -/
-def CoseSignature.fromValue : Nat → Value → Res CoseSignature
-  | 0, _ => .err .outOfFuel
-  | fuel+1, v =>
+def CoseSignature.fromValue : Nat → Nat → Value → Res CoseSignature
+  | 0, _, _ => .err .outOfFuel
+  | fuel+1, depth, v =>
     match tryAsArray v with
     | .ok a =>
       if Gen.CoseSignature_arityBad a.length then .err .unexpectedItem else
@@ -196,11 +197,11 @@ def CoseSignature.fromValue : Nat → Value → Res CoseSignature
         | .ok signature =>
           match vremove a (Gen.CoseSignature_removes.getD 1 99) with
           | .ok (x1, a) =>
-            match Header.fromValue fuel x1 with
+            match Header.fromValue fuel depth x1 with
             | .ok unprotected =>
               match vremove a (Gen.CoseSignature_removes.getD 2 99) with
               | .ok (x0, _) =>
-                match ProtectedHeader.fromBstr fuel x0 with
+                match ProtectedHeader.fromBstr fuel depth x0 with
                 | .ok prot => .ok (.mk prot unprotected signature)
                 | .err e => .err e
                 | .panic p => .panic p
@@ -217,16 +218,16 @@ def CoseSignature.fromValue : Nat → Value → Res CoseSignature
     | .err e => .err e
     | .panic p => .panic p
 /-- `ProtectedHeader::from_cbor_bstr` -/
-def ProtectedHeader.fromBstr : Nat → Value → Res ProtectedHeader
-  | 0, _ => .err .outOfFuel
-  | fuel+1, v =>
+def ProtectedHeader.fromBstr : Nat → Nat → Value → Res ProtectedHeader
+  | 0, _, _ => .err .outOfFuel
+  | fuel+1, depth, v =>
     match tryAsBytes v with
     | .ok data =>
       if data.isEmpty then .ok (.mk (some data) Header.default)
       else
         match readToValue data with
         | .ok x =>
-          match Header.fromValue fuel x with
+          match Header.fromValue fuel depth x with
           | .ok h => .ok (.mk (some data) h)
           | .err e => .err e
           | .panic p => .panic p
@@ -236,9 +237,22 @@ def ProtectedHeader.fromBstr : Nat → Value → Res ProtectedHeader
     | .panic p => .panic p
 end
 
+/-- `MAX_SIGNATURE_NESTING` (regenerated from the source). -/
+def maxNest : Nat := Gen.MAX_SIGNATURE_NESTING
+
+/-- fuel that always suffices: one Header → CoseSignature → ProtectedHeader → Header cycle costs three
+    units of fuel and one unit of depth (`fuel_sufficient` in the proofs). -/
+def topFuel : Nat := 3 * maxNest + 3
+
+/-- the `AsCborValue::from_cbor_value` entry points (full nesting budget). -/
+def hdrFromValue (v : Value) : Res Header := Header.fromValue topFuel maxNest v
+def sigFromValue (v : Value) : Res CoseSignature := CoseSignature.fromValue topFuel maxNest v
+/-- `ProtectedHeader::from_cbor_bstr` -/
+def phFromBstr (v : Value) : Res ProtectedHeader := ProtectedHeader.fromBstr topFuel maxNest v
+
 /-- `ProtectedHeader::from_cbor_value` (the `AsCborValue` impl: no stored bytes). -/
-def ProtectedHeader.fromValue (fuel : Nat) (v : Value) : Res ProtectedHeader :=
-  match Header.fromValue fuel v with
+def ProtectedHeader.fromValue (v : Value) : Res ProtectedHeader :=
+  match hdrFromValue v with
   | .ok h => .ok (.mk none h)
   | .err e => .err e
   | .panic p => .panic p
